@@ -24,7 +24,7 @@ RULE = (
 REQUIRED = ["probe.first_once", "deplete.duration", "deplete.current", "log.first_row", "log.rows", "log.time_increasing",
             "log.stops_at_first_violation", "battery.must_be_source", "deplete.every_solved_step_handed_over"]
 # battery.source_accepted is evaluated only when batt_life raises something that is not a solver failure (never on a correct tree)
-SIZES = {"quick": 45, "thorough": 330}
+SIZES = {"quick": 90, "thorough": 400}
 ASSUMPTIONS = ["phase durations are positive (a zero-duration phase cannot advance the strictly increasing time axis)",
                "a battery that delivers no current in a system without phases is outside the quantifier (infinite time step)",
                "batt_life solves with its internal defaults (vtol=1e-5, itol=1e-6); the twin is solved with the same settings"]
